@@ -615,7 +615,7 @@ def obligations(tier, seed):
     out = C02.gen_obligations(tier, seed, ["int", "str"], alphabet, run_model,
                               lambda o: o[0] in ("add_node", "add_edge", "remove_edge", "remove_node")
                               and not isinstance(o[2] if len(o) > 2 else 0, dict),
-                              max_states=(70, 1500), max_depth=(4, 5))
+                              max_states=(70, 250), max_depth=(4, 5))
     # derivation obligations: one per abstract state and mode
     import random
 
@@ -624,7 +624,7 @@ def obligations(tier, seed):
         U = UNIVERSES[uni]
         gen_ops = [o for o in alphabet(U, weighted, False)
                    if o[0] == "add_node" or (o[0] == "add_edge" and isinstance(o[2], int) and o[2] >= 0)]
-        sg = C02.state_graph(U, weighted, gen_ops, run_model, max_depth=3 if q else 4, max_states=40 if q else 900)
+        sg = C02.state_graph(U, weighted, gen_ops, run_model, max_depth=3 if q else 4, max_states=40 if q else 250)
         states = list(sg)
         for si, st in enumerate(states):
             base = sg[st][0]
@@ -634,7 +634,7 @@ def obligations(tier, seed):
         # richer bases: seeded histories of 4-6 insertions with repeats and metadata
         adds = [o for o in alphabet(U, weighted) if o[0] in ("add_edge", "add_edges", "add_node", "set_node_metadata")
                 and not (o[0] == "add_edge" and (isinstance(o[2], dict) or o[2] == -1))]
-        for _ in range(6 if q else 120):
+        for _ in range(6 if q else 60):
             base = [rng.choice(adds) for _ in range(rng.randint(4, 6))]
             for mode in ("window", "agg", "snap"):
                 out.append({"family": "derive-" + mode, "layer": "seeded", "universe": uni, "weighted": weighted,
@@ -665,8 +665,8 @@ META = {
                  "metadata values and the rejected negative time are unbounded symbolic integers; derivations "
                  "(get_edges(time_window), subhypergraph, aggregate) checked on every abstract state within 3 insertions "
                  "(cap 40) and 6 seeded richer bases",
-        "thorough": "both label universes; states within 5 ops (cap 1500) x full alphabet; derivations on states within "
-                    "4 insertions (cap 900) and 120 seeded bases",
+        "thorough": "both label universes; states within 5 ops (cap 250) x 12 ops (stride) x two histories; derivations "
+                    "on states within 4 insertions (cap 250) and 60 seeded bases",
     },
     "stand_ins": [],
     "outside_claim": [
